@@ -64,7 +64,9 @@ def dump_cases(draw):
             "one_based_ids": draw(st.booleans()), "one_based_starts": draw(st.booleans()),
             "header": draw(st.booleans()), "chunksize": draw(st.sampled_from([None, 1, 2, 5, 10**6])),
             "float_format": draw(st.sampled_from([None, ".17g"])), "na_rep": draw(st.sampled_from([None, "NA"])),
-            "to_file": draw(st.booleans())}
+            "to_file": draw(st.booleans()),
+            # schema v2 / legacy files carry no storage-mode attribute and are symmetric-upper by definition
+            "legacy_attr": symmetric and draw(st.integers(0, 4)) == 0}
 
 
 def _extras(n):
@@ -103,6 +105,11 @@ def check_dump(case, ctx: Ctx):
     try:
         path = os.path.join(d, "in.cool")
         _make(ctx, case, path)
+        if case.get("legacy_attr"):
+            import h5py
+
+            with h5py.File(path, "r+") as f:
+                del f.attrs["storage-mode"]
         args = ["dump", path]
         i0, i1, j0, j1 = 0, n, 0, n
         if case["range"]:
